@@ -30,7 +30,8 @@ PROFILES = {
     # connectives against warm caches, recycled numbers, post-swap tables
     'C01': dict(weights=_w(apply=22, ite=8, fop=8, cube=3, quant=1, let=1,
                            gc=5, swap=4, reorder=1, redo=10, probe=6, fork=1),
-                flavors=['raw', 'autoref'], nv=(2, 8), steps=(20, 120), m1_rate=0.15),
+                flavors=['raw', 'autoref'], nv=(2, 8), steps=(20, 120), m1_rate=0.15,
+                alloc_faults='light'),
     # equal functions arriving by different routes at different times
     'C02': dict(weights=_w(apply=10, ite=4, eqcheck=8, find_or_add=8, let=8,
                            quant=2, add_expr=5, to_expr=2, gc=4, swap=4,
@@ -38,10 +39,10 @@ PROFILES = {
                            sizes=3, fork=1),
                 flavors=['raw', 'autoref'], nv=(1, 6), steps=(20, 120),
                 m1_rate=0.15),
-    'C03': dict(weights=_w(quant=24, apply=8, gc=3, swap=3, reorder=1, redo=8, probe=8), probe_second=['quant'],
-                flavors=['raw', 'autoref'], nv=(1, 7), steps=(15, 80)),
-    'C04': dict(weights=_w(let=24, apply=8, gc=3, swap=3, reorder=1, redo=8, probe=8), probe_second=['let'],
-                flavors=['raw', 'autoref'], nv=(1, 7), steps=(15, 80)),
+    'C03': dict(weights=_w(quant=24, apply=18, ite=4, gc=3, swap=3, reorder=1, redo=8, probe=8), probe_second=['quant'],
+                flavors=['raw', 'autoref'], nv=(1, 7), steps=(15, 80), alloc_faults=True, alloc_focus='quant'),
+    'C04': dict(weights=_w(let=24, apply=18, ite=4, gc=3, swap=3, reorder=1, redo=8, probe=8), probe_second=['let'],
+                flavors=['raw', 'autoref'], nv=(1, 7), steps=(15, 80), alloc_faults=True, alloc_focus='let'),
     'C05': dict(weights=_w(add_expr=24, to_expr=8, apply=6, quant=1, let=1,
                            gc=2, swap=3, reorder=1, reject=3),
                 flavors=['raw', 'autoref'], nv=(1, 7), steps=(15, 80),
@@ -84,7 +85,7 @@ PROFILES = {
                 flavors=['raw'], nv=(1, 6), steps=(20, 100),
                 declared0=True, reject_kinds=['level', 'undeclare', 'swap_bad']),
     'C15': dict(weights=_w(mdd=30, bdd_to_mdd=3, apply=6, swap=1, gc=1, reorder=0, pairs=0),
-                flavors=['raw'], nv=(1, 6), steps=(20, 90)),
+                flavors=['raw'], nv=(1, 6), steps=(20, 90), dyn_rate=0.5),
     'C16': dict(weights=_w(dddmp=10, apply=10, swap=4, declare=1, gc=1),
                 flavors=['raw'], nv=(1, 5), steps=(15, 60)),
     'C17': dict(weights=_w(reject=18, apply=8, add_expr=3, load=4, dump=3, gc=3,
@@ -190,8 +191,10 @@ def _make_cfg(prop, seed, tier='quick', idx=0):
         reject_kinds=P.get('reject_kinds'), probe_second=P.get('probe_second'),
         copy_copy=bool(P.get('copy_copy')) and r.random() < P['copy_copy'],
         copy_memo_run=bool(P.get('copy_memo_run')) and r.random() < P['copy_memo_run'],
-        alloc_rate=(r.choice([0.0, 0.1, 0.25]) if P.get('alloc_faults') else 0.0),
+        alloc_rate=(r.choice([0.0, 0.0, 0.0, 0.15] if P.get('alloc_faults') == 'light' else [0.0, 0.1, 0.25])
+                    if P.get('alloc_faults') else 0.0),
         explicit_release=P.get('explicit_release', 0.0),
+        alloc_focus=P.get('alloc_focus'),
         sift_tiny=bool(P.get('sift_tiny')), doc_cases=doc_cases,
         line_mode=bool(P.get('line_mode')) and r.random() < P['line_mode'].get(tier, 0.0),
         ctor_perm=(r.randrange(1, 1 << 30) if r.random() < 0.15 else None),
